@@ -72,9 +72,10 @@ structure NetCfg where
   permissionlessEpoch : Nat  -- PermissionlessActivationEpoch
 deriving Repr
 
-/-- well-formed network constants (the divisors are non-zero; genesis fits an int64) -/
+/-- well-formed network constants: the divisors are non-zero, a slot lasts at least two seconds (every supported
+    network: 12), genesis fits an int64. These are compile-time configuration of the node, not network input. -/
 def NetCfg.WF (c : NetCfg) : Prop :=
-  0 < c.slotDur ∧ 0 < c.slotsPerEpoch ∧ 0 < c.epochsPerPeriod ∧ (c.genesis : Int) < two63
+  2 ≤ c.slotDur ∧ 0 < c.slotsPerEpoch ∧ 0 < c.epochsPerPeriod ∧ (c.genesis : Int) < two63
 
 /-- `GetSlotStartTime(slot)`: `time.Unix(int64(genesis + uint64(slot)*dur), 0)`, uint64 wrap-around -/
 def slotStart (c : NetCfg) (slot : Int) : GoTime :=
